@@ -51,12 +51,22 @@ def _brief(item):
 def parallel(items, worker, chunksize=4):
     """run worker over items in forked processes; returns list of result dicts"""
     G.worker = worker
-    items = list(items)
-    if NPROC <= 1 or len(items) < 4:
-        return [_run_item(it) for it in items]
+    if isinstance(items, (list, tuple)):
+        if NPROC <= 1 or len(items) < 4:
+            return [_run_item(it) for it in items]
     ctx = mp.get_context('fork')
     with ctx.Pool(NPROC) as pool:
+        # generators are consumed lazily (large thorough families are never materialised in the parent)
         return list(pool.imap_unordered(_run_item, items, chunksize=chunksize))
+
+
+def parallel_stream(items, worker, absorb, chunksize=64):
+    """like parallel(), but results are folded into `absorb` as they arrive and not kept"""
+    G.worker = worker
+    ctx = mp.get_context('fork')
+    with ctx.Pool(NPROC) as pool:
+        for r in pool.imap_unordered(_run_item, items, chunksize=chunksize):
+            absorb(r)
 
 
 # ------------------------------------------------------------------ native replay
